@@ -55,7 +55,10 @@ def replay(chk, cases, variants):
             # the spec's "unit" is the mil; the same physical sight expressed in another unit
             vclick = ang_unit(float(Fraction(c["vclick"], 10) * ang_per_mil))
             hclick = ang_unit(float(Fraction(c["hclick"], 10) * ang_per_mil))
-            cal = None if c["cal"] == 0 else dist_unit(float(c["cal"] * dist_per_yd))
+            # the spec's cal = 0 is "no calibration distance": given as None, or - the way a form field says "not set" - as a bare 0
+            cal = [None, 0, None, 0.0][ci % 4] if c["cal"] == 0 else dist_unit(float(c["cal"] * dist_per_yd))
+            if c["cal"] == 0 and cal is not None:
+                chk.stratum("missing_calibration_given_as_bare_zero")
             o = impl.outcome(m.Sight, c["plane"], cal, hclick, vclick)
             key = {"plane": c["plane"], "vclick": c["vclick"], "hclick": c["hclick"], "cal": c["cal"],
                    "ang": ang_name, "dist": dist_unit.name}
@@ -142,7 +145,7 @@ def run(chk: core.Check, replay_path=None, **_):
     for x in cases[:: max(1, len(cases) // 4)][:4]:
         chk.sample(x)
     core.reset_world()
-    chk.require_strata(["row_of_an_inclined_shot", "rejected", "FFP", "SFP", "LWIR", "pref_adjustment_tangent_unit", "caller_redisplays_click",
+    chk.require_strata(["missing_calibration_given_as_bare_zero", "row_of_an_inclined_shot", "rejected", "FFP", "SFP", "LWIR", "pref_adjustment_tangent_unit", "caller_redisplays_click",
                         "target_and_calibration_in_different_units",
                         "distance_display_and_preference_changed_after_construction"])
     chk.extra["unit_variants"] = [f"{a[0]}/{d[0]}" for a, d in variants]
